@@ -19,7 +19,7 @@ RULE = ("paired replay: the same seeded execution with log-likelihood L and L+c 
         "final one by c; a diverging pair is a violation only if it reproduces for three nearby shifts AND none of twelve rounding-level twins (shifts 2^-38..2^-43) leaves the unshifted "
         "trajectory (executions whose discrete decisions flip under rounding noise alone are counted as rounding forks, not judged); "
         "distinct = configuration class x sign/magnitude bucket of c; non-trivial = at least 3 annealing iterations")
-ASSUMPTIONS = ["an execution is a rounding fork iff a shift of 2^-38..2^-43 (analytic effect <= 4e-12) already changes its trajectory; measured: about 0.1% of executions, mostly percentile-threshold ties in weight trimming and the rank test of numerically singular covariances in the volume-variation metric"]
+ASSUMPTIONS = ["an execution is a rounding fork iff a shift of 2^-38..2^-43 (analytic effect <= 4e-12) or an unshifted twin whose log-likelihood values carry noise of amplitude ulp(c)/2 (what adding c does to them) already changes its trajectory; measured: about 0.1% of executions, mostly percentile-threshold ties in weight trimming and the rank test of numerically singular covariances in the volume-variation metric"]
 
 
 class RecMon(Monitor):
@@ -34,7 +34,7 @@ class RecMon(Monitor):
         st = inc.samplers[-1].state
         c = st._current
         self.it.append(dict(beta=float(c["beta"]), logz=float(st._history["logz"][-1]), ess=float(c["ess"]), u=np.asarray(c["u"], dtype=float).copy(),
-                            logl=np.asarray(c["logl"], dtype=float).copy(), w=self.w, calls=int(c["calls"])))
+                            logl=np.asarray(c["logl"], dtype=float).copy(), w=self.w, calls=int(c["calls"]), hlen=len(st._history["beta"])))
 
 
 def run(case, shift):
@@ -90,6 +90,9 @@ def knife_edge(A, B, d, case):
     m = re.search(r"iteration (\d+)", d[1])
     t = int(m.group(1)) - 1 if m else min(len(A["it"]), len(B["it"]))
     h = st._history
+    # position in the stored history (after a crash and resume the list of observed iterations is longer than the history: iterations
+    # run after the last checkpoint were lost and run again)
+    t = min(A["it"][t]["hlen"] - 1, len(h["beta"])) if t < len(A["it"]) else len(h["beta"])
     pool = [(float(h["beta"][k]), float(h["logz"][k]), np.asarray(h["logl"][k], dtype=float)) for k in range(min(t, len(h["beta"])))]
     cfg = case["cfg"]
     N = cfg.get("n_particles")
@@ -102,13 +105,14 @@ def knife_edge(A, B, d, case):
         ess = refmis.ess_from_logw(refmis.mis(full, 1.0)[0])
         if abs(ess - case["n_total"]) <= 1e-9 * case["n_total"]:
             return "termination: ESS over the history equals n_total to rounding"
-        if abs((1.0 - float(h["beta"][t - 1])) - 1e-4) <= 1e-12:
+        if t >= 1 and abs((1.0 - float(h["beta"][t - 1])) - 1e-4) <= 1e-12:
             return "termination: 1-beta equals 1e-4 to rounding"
     bprev = pool[-1][0]
     ess_prev = refmis.ess_from_logw(refmis.mis(pool, bprev)[0])
     if d[0] in ("beta", "particles") and abs(ess_prev - target) <= 1e-9 * target:
         return "schedule: ESS at beta_prev equals the target to rounding"
-    w = A["it"][t]["w"] if t < len(A["it"]) else None
+    cand = [e for e in A["it"] if e["hlen"] - 1 == t]
+    w = cand[-1]["w"] if cand else None
     if w is not None and len(w) == sum(len(b[2]) for b in pool):
         sizes = set()
         metric = []
@@ -155,6 +159,18 @@ def run_case(case):
                 ce = (1.0 if k % 2 == 0 else -1.0) * 2.0 ** -(38 + k // 2)
                 if compare(A, run(case, ce), ce) is not None:
                     fork += 1
+                    break
+        # Rounding-noise twins at the amplitude of this very shift: adding c rounds every L to a multiple of ulp(c), i.e. perturbs it by up to
+        # ulp(c)/2 ~ 2^-53 |c|.  Six unshifted executions whose log-likelihood values carry a fixed pseudo-random perturbation of that amplitude
+        # (hash of the point) are the same problem up to exactly that rounding; if any of them leaves A's trajectory, what B shows is
+        # amplification of rounding noise by a discrete decision (e.g. the iteration count of an EM fit), not a dependence on c.
+        if repro == 3 and fork == 0 and abs(c) > 1.0:
+            for k in range(6):
+                cn = copy.deepcopy(case)
+                cn["target"]["noise"] = dict(amp=2.0 ** -53 * abs(c), seed=k)
+                if compare(A, run(cn, 0.0), 0.0) is not None:
+                    fork += 1
+                    probes["noise_twin_fork"] = 1
                     break
         edge = knife_edge(A, B, d, case) if (repro == 3 and fork == 0) else None
         if edge is not None:
